@@ -374,11 +374,14 @@ class Interp:
         self.memo_ops = []
 
     # -------------------------------------------------------------- reporting
+    MAX_BODY_VIOLATIONS = 30
+
     def violate(self, rule, instance, detail, st, line=None, body=None):
         b = body or self.cur_root
         v = Violation(rule, self.cur_root["uname"], instance, detail, st.trace if st is not None else (),
                       line, b["file"])
         self.violations.append(v)
+        self.body_viol = getattr(self, "body_viol", 0) + 1
 
     # -------------------------------------------------------------- body-level entry
     def analyse(self, body, entry=None):
@@ -386,6 +389,7 @@ class Interp:
         self.cur_root = body
         self.stats["bodies"] += 1
         self.body_states = 0
+        self.body_viol = 0
         st = State()
         if entry:
             entry(st)
@@ -493,6 +497,11 @@ class Interp:
             seen.add(k)
             self.stats["states"] += 1
             self.body_states += 1
+            if getattr(self, "body_viol", 0) >= self.MAX_BODY_VIOLATIONS:
+                # the body is already reported many times over: exploring the states that follow a broken one only multiplies
+                # cascading reports (and, for the 26-arity tuple families, the state count)
+                work.clear()
+                break
             if self.body_states > self.MAX_STATES:
                 raise AnalysisError("state budget exceeded in %s" % self.cur_root["uname"])
             bl = blocks[bbi]
